@@ -13,7 +13,9 @@ def build():
 def run(tier, deadline):
     t0 = time.time(); build()
     env = dict(os.environ, CAT_LIB=vbuild.build("wrap"))
-    r = subprocess.run([BIN, "0" if tier == "quick" else "1"], capture_output=True, text=True, env=env, timeout=deadline)
+    try: r = subprocess.run([BIN, "0" if tier == "quick" else "1"], capture_output=True, text=True, env=env, timeout=deadline)
+    except subprocess.TimeoutExpired:
+        print("INTERNAL-ERROR: the allocation-failure enumeration did not finish within the deadline", file=sys.stderr); return 2
     if r.returncode != 0:
         print("INTERNAL-ERROR: c20 exit", r.returncode, r.stderr[-300:], file=sys.stderr); return 2
     viol = {}; cases = []; stat = {}
